@@ -150,8 +150,7 @@ def main():
         "not_applicable": na,
         "notes": "All checks rebuild /verif/mc against /repo's working tree (path dependency). Exit 2 = machinery failure (never a verdict). Known findings: /verif/known_findings.json.",
     }
-    if not na:
-        del m["not_applicable"]
+    # (kept even when empty: all 20 properties are claimed)
     json.dump(m, open(os.path.join(HERE, "MANIFEST.json"), "w"), indent=1)
     print("wrote MANIFEST.json:", len(checks), "checks,", len(na), "not_applicable")
 
